@@ -3,7 +3,7 @@
 From Coq Require Import QArith List Bool.
 From Cobra.LP Require Import Defs Cert Fba.
 From Cobra.Optimize Require Import Model.
-From Cobra.Secondary Require Import Aux Pfba PfbaProofs.
+From Cobra.Secondary Require Import Aux Pfba PfbaProofs AuxLp Moma MomaProofs.
 Import ListNotations.
 Open Scope Q_scope.
 
@@ -79,4 +79,58 @@ Proof.
   { apply (check_opt_sound _ _ [-1; -2; -3]). vm_compute. reflexivity. }
   split; [exact V|]. split; [exact O|]. split; [|reflexivity].
   exact (proj1 (pfba_lp_equiv toy 5 _ V O)).
+Qed.
+
+(* ------------------------------------------------ linear MOMA ------------------------------------------------ *)
+
+(* add_absolute_expression: variable >= 0, expression - variable <= difference, expression + variable >= difference
+   say exactly  variable >= |expression - difference| *)
+Theorem C09_abs_encoding : forall e ref d,
+  (0 <= d /\ e - d <= ref /\ ref <= e + d) <-> Qabs' (e - ref) <= d.
+Proof. exact abs_encoding. Qed.
+Print Assumptions C09_abs_encoding.
+
+(* The LP built by add_moma(linear=True) (variables: forward/reverse pairs, moma_old_objective, one
+   moma_dist variable per reaction): an optimum projects onto a flux vector of the model with the least summed
+   absolute distance to the reference; the LP's objective value (Solution.objective_value) is that distance, and
+   moma_old_objective holds the original objective's value at the returned fluxes.               *)
+Theorem C09_moma_lp_equiv : forall m ref zs w ds,
+  valid_model m -> length zs = length (rxns m) ->
+  is_opt (moma_lp m ref) (flat zs ++ w :: ds) ->
+  moma_opt m ref (nets zs) /\ vsum ds == dist (length (rxns m)) (nets zs) ref /\
+  - value (moma_lp m ref) (flat zs ++ w :: ds) == dist (length (rxns m)) (nets zs) ref /\
+  w == dot (raw_obj m) (nets zs).
+Proof. exact moma_lp_equiv. Qed.
+Print Assumptions C09_moma_lp_equiv.
+
+(* every flux vector of the model lifts to a feasible point of that LP with objective = its distance
+   (so the LP's optimum is not larger than the specification's minimum and the LP is feasible iff the model is) *)
+Theorem C09_moma_spec_to_lp : forall m ref v,
+  valid_model m -> feasible (net_lp m) v ->
+  let ds := map (fun i => Qabs' (nth i v 0 - nth i ref 0)) (seq 0 (length (rxns m))) in
+  feasible (moma_lp m ref) (flat (splits v) ++ dot (raw_obj m) v :: ds) /\
+  vsum ds == dist (length (rxns m)) v ref.
+Proof. exact moma_spec_to_lp. Qed.
+Print Assumptions C09_moma_spec_to_lp.
+
+Theorem C09_moma_feasible_iff : forall m ref, valid_model m ->
+  ((exists v, feasible (net_lp m) v) <->
+   (exists zs w ds, length zs = length (rxns m) /\ feasible (moma_lp m ref) (flat zs ++ w :: ds))).
+Proof. exact moma_feasible_iff. Qed.
+Print Assumptions C09_moma_feasible_iff.
+
+(* non-vacuity: the toy network with the uptake knocked out... here: reference (10, 10, 10), uptake limited to 4:
+   the closest flux vector is (4, 4, 4) at distance 18 *)
+Definition toy4 : fbamodel :=
+  mkFba 2 [mkRxn [1; 0] (Fin 0) (Fin 4) 0; mkRxn [-1; 1] (Fin (-1000)) (Fin 1000) 0;
+           mkRxn [0; -1] (Fin 0) (Fin 1000) 1] true.
+Example C09_moma_toy :
+  is_opt (moma_lp toy4 [10; 10; 10]) (flat [(4, 0); (4, 0); (4, 0)] ++ 4 :: [6; 6; 6]) /\
+  moma_opt toy4 [10; 10; 10] [4; 4; 4] /\ dist 3 [4; 4; 4] [10; 10; 10] == 18.
+Proof.
+  assert (V : valid_model toy4) by (apply valid_model_b_ok; reflexivity).
+  assert (O : is_opt (moma_lp toy4 [10; 10; 10]) (flat [(4, 0); (4, 0); (4, 0)] ++ 4 :: [6; 6; 6])).
+  { apply (check_opt_sound _ _ [-2; -1; 0; 0; 0; 0; -1; -1; -1]). vm_compute. reflexivity. }
+  split; [exact O|]. split; [|reflexivity].
+  exact (proj1 (moma_lp_equiv toy4 [10; 10; 10] [(4, 0); (4, 0); (4, 0)] 4 [6; 6; 6] V eq_refl O)).
 Qed.
